@@ -19,6 +19,34 @@ type FeedAPI interface {
 	Send(value interface{}) int
 }
 
+// ScopeAPI is the scope the engine drives. *event.SubscriptionScope satisfies
+// it; the self-test plugs in a deliberately broken one.
+type ScopeAPI interface {
+	Track(s event.Subscription) event.Subscription
+	Close()
+	Count() int
+}
+
+// World names the implementations a program is executed against.
+type World struct {
+	Feed  func() FeedAPI
+	Scope func() ScopeAPI
+}
+
+// lazySub is a Subscription whose Unsubscribe takes a while (yields) before it
+// forwards to the wrapped subscription.
+type lazySub struct {
+	event.Subscription
+	yields int
+}
+
+func (l *lazySub) Unsubscribe() {
+	for i := 0; i < l.yields; i++ {
+		runtime.Gosched()
+	}
+	l.Subscription.Unsubscribe()
+}
+
 type Result struct {
 	History  []Event  `json:"history"`
 	Deadlock bool     `json:"deadlock"`
@@ -35,17 +63,18 @@ type glog struct {
 }
 
 type runner struct {
-	p     *Program
-	feed  FeedAPI
-	scope event.SubscriptionScope
+	p      *Program
+	feed   FeedAPI
+	scopes []ScopeAPI
 
 	seq     atomic.Int64
-	started atomic.Int64 // sends begun
-	ended   atomic.Int64 // sends returned
-	stopped atomic.Bool  // a scope-stop subscriber stopped receiving
+	started atomic.Int64  // sends begun
+	ended   atomic.Int64  // sends returned
+	stopped []atomic.Bool // per scope: a scope-stop subscriber stopped receiving
 
 	start       chan struct{} // closed when every SubAt==0 subscriber is subscribed
-	sendersDone chan struct{}
+	regularDone chan struct{} // every sender goroutine has returned
+	sendersDone chan struct{} // ... and every closer too (a closer may send after its Close): every Send has returned
 	abort       chan struct{} // closed on deadlock / panic so that pollers exit
 	abortOnce   sync.Once
 
@@ -78,6 +107,15 @@ func (r *runner) log(g *glog, name, kind string, sub, val, n int) {
 func (r *runner) aborted() bool {
 	select {
 	case <-r.abort:
+		return true
+	default:
+		return false
+	}
+}
+
+func (r *runner) regularFinished() bool {
+	select {
+	case <-r.regularDone:
 		return true
 	default:
 		return false
@@ -120,7 +158,7 @@ func pause(spins *int) {
 func (r *runner) waitStarted(n int) bool {
 	spins := 0
 	for r.started.Load() < int64(n) {
-		if r.sendersFinished() {
+		if r.regularFinished() {
 			return true
 		}
 		if r.aborted() {
@@ -171,20 +209,41 @@ func (r *runner) extUnsub(k int, sub event.Subscription, at int) {
 	r.log(g, name, KUnsubRet, k, 0, 0)
 }
 
-func (r *runner) closer() {
+func (r *runner) closer(ci int, c Closer) {
 	defer r.all.Done()
-	defer r.guard("C")
+	name := fmt.Sprintf("C%d", ci)
+	defer r.guard(name)
 	g := r.newLog()
+	sc := r.scopes[c.Scope]
 	spins := 0
-	for r.started.Load() < int64(r.p.CloseAt) && !r.stopped.Load() && !r.sendersFinished() {
+	for r.started.Load() < int64(c.At) && !r.stopped[c.Scope].Load() && !r.regularFinished() {
 		if r.aborted() {
 			return
 		}
 		pause(&spins)
 	}
-	r.log(g, "C", KCloseCall, -1, 0, 0)
-	r.scope.Close()
-	r.log(g, "C", KCloseRet, -1, 0, 0)
+	for d := 0; d < c.Yields; d++ {
+		runtime.Gosched()
+	}
+	if c.Count {
+		r.log(g, name, KCount, -1, c.Scope, sc.Count())
+	}
+	r.log(g, name, KCloseCall, -1, c.Scope, 0)
+	sc.Close()
+	r.log(g, name, KCloseRet, -1, c.Scope, 0)
+	if c.Probe {
+		// Close has returned to me: from my point of view everything the
+		// scope tracked is unsubscribed. This send must not reach any of it.
+		v := ProbeBase + ci
+		r.log(g, name, KSendBegin, -1, v, 0)
+		r.started.Add(1)
+		n := r.feed.Send(v)
+		r.ended.Add(1)
+		r.log(g, name, KSendEnd, -1, v, n)
+	}
+	if c.Count {
+		r.log(g, name, KCount, -1, c.Scope, sc.Count())
+	}
 }
 
 func (r *runner) subscriber(k int) {
@@ -208,18 +267,24 @@ func (r *runner) subscriber(k int) {
 	sub := r.feed.Subscribe(ch)
 	tracked := 0
 	if scoped(s.Mode) {
-		if t := r.scope.Track(sub); t != nil {
+		inner := sub
+		if s.UnsubYields > 0 {
+			inner = &lazySub{Subscription: sub, yields: s.UnsubYields}
+		}
+		if t := r.scopes[s.Scope].Track(inner); t != nil {
 			sub, tracked = t, 1
+		} else {
+			tracked = 2 // the scope was already closed: Track returned nil, the subscription is mine
 		}
 	}
-	r.log(g, name, KSubRet, k, 0, tracked)
+	r.log(g, name, KSubRet, k, s.Scope, tracked)
 	if s.SubAt == 0 {
 		preDone = true
 		r.preSub.Done()
 	}
 	mode := s.Mode
-	if scoped(mode) && tracked == 0 {
-		mode = ModeNever // the scope was already closed: Track returned nil, the subscription is mine
+	if scoped(mode) && tracked != 1 {
+		mode = ModeNever
 	}
 	if mode == ModeExt {
 		r.all.Add(1)
@@ -265,7 +330,7 @@ loop:
 				unsubscribed = true
 				break loop
 			case ModeScopeStop:
-				r.stopped.Store(true)
+				r.stopped[s.Scope].Store(true)
 				select {
 				case <-sub.Err():
 				case <-r.abort:
@@ -333,13 +398,17 @@ var watchdog = 10 * time.Second
 
 // Execute runs the program once on a fresh feed. plan is installed by the
 // caller (it is process-global).
-func Execute(p *Program, feed FeedAPI) *Result {
+func Execute(p *Program, w World) *Result {
 	r := &runner{
-		p: p, feed: feed,
-		start: make(chan struct{}), sendersDone: make(chan struct{}), abort: make(chan struct{}),
+		p: p, feed: w.Feed(),
+		start: make(chan struct{}), regularDone: make(chan struct{}), sendersDone: make(chan struct{}), abort: make(chan struct{}),
 		panicCh: make(chan struct{}, 1),
 	}
-	var senders sync.WaitGroup
+	for i := 0; i < p.NScopes(); i++ {
+		r.scopes = append(r.scopes, w.Scope())
+	}
+	r.stopped = make([]atomic.Bool, p.NScopes())
+	var senders, closers sync.WaitGroup
 	for _, s := range p.Subs {
 		if s.SubAt == 0 {
 			r.preSub.Add(1)
@@ -349,9 +418,13 @@ func Execute(p *Program, feed FeedAPI) *Result {
 	for k := range p.Subs {
 		go r.subscriber(k)
 	}
-	if p.HasScope() {
+	for ci, c := range p.AllClosers() {
 		r.all.Add(1)
-		go r.closer()
+		closers.Add(1)
+		go func(ci int, c Closer) {
+			defer closers.Done()
+			r.closer(ci, c)
+		}(ci, c)
 	}
 	go func() {
 		r.preSub.Wait()
@@ -365,15 +438,23 @@ func Execute(p *Program, feed FeedAPI) *Result {
 		}(i)
 	}
 	go func() {
-		senders.Wait()
 		// a sender that panicked has not sent everything: the run is aborted
 		// by the panic path, never declared finished.
-		r.panicMu.Lock()
-		np := len(r.panics)
-		r.panicMu.Unlock()
-		if np == 0 {
-			close(r.sendersDone)
+		npanics := func() int {
+			r.panicMu.Lock()
+			defer r.panicMu.Unlock()
+			return len(r.panics)
 		}
+		senders.Wait()
+		if npanics() != 0 {
+			return
+		}
+		close(r.regularDone)
+		closers.Wait()
+		if npanics() != 0 {
+			return
+		}
+		close(r.sendersDone)
 	}()
 	done := make(chan struct{})
 	go func() {
